@@ -214,6 +214,62 @@ func runAllocs(s *stor.Stor, chunk int, scripts [][]allocStep, inAlloc *atomic.I
 	return h
 }
 
+// runDense is the lean runner for the "dense" sub-check: many allocations per
+// goroutine, nothing between two Alloc calls but recording the result, so that
+// several goroutines are inside Alloc at a chunk boundary most of the time.
+// Goroutine g allocates rounds times, size sizes[g][(k*stride[g]) % len].
+// The first and last byte of each region carry a private tag, checked at the end.
+func runDense(s *stor.Stor, chunk int, sizes [][]int, stride []int, rounds int) allocHistory {
+	recs := make([][]region, len(sizes))
+	bufs := make([][][]byte, len(sizes))
+	var wg sync.WaitGroup
+	start := make(chan struct{})
+	for g := range sizes {
+		wg.Add(1)
+		go func(g int) {
+			defer wg.Done()
+			p := sizes[g]
+			rs := make([]region, 0, rounds)
+			bs := make([][]byte, 0, rounds)
+			alloc := func(n int) (off uint64, buf []byte, pan string) {
+				defer func() {
+					if e := recover(); e != nil {
+						pan = fmt.Sprint(e)
+					}
+				}()
+				off, buf = s.Alloc(n)
+				return
+			}
+			<-start
+			for k := 0; k < rounds; k++ {
+				n := p[(k*stride[g])%len(p)]
+				off, buf, pan := alloc(n)
+				r := region{G: g, Seq: k, N: n, Off: off, Len: len(buf), Cap: cap(buf), Panic: pan, Size: ^uint64(0) >> 1}
+				if pan == "" && len(buf) > 0 {
+					buf[0] = pat(g, k, 0)
+					buf[len(buf)-1] = pat(g, k, 0)
+				}
+				rs = append(rs, r)
+				bs = append(bs, buf)
+			}
+			recs[g], bufs[g] = rs, bs
+		}(g)
+	}
+	close(start)
+	wg.Wait()
+	h := allocHistory{Chunk: uint64(chunk), EndSize: s.Size()}
+	for g := range recs {
+		for i := range recs[g] {
+			r := &recs[g][i]
+			if b := bufs[g][i]; r.Panic == "" && len(b) > 0 && (b[0] != pat(g, r.Seq, 0) || b[len(b)-1] != pat(g, r.Seq, 0)) {
+				r.Bad = fmt.Sprintf("tag bytes are %#x/%#x, written %#x", b[0], b[len(b)-1], pat(g, r.Seq, 0))
+			}
+			h.Regions = append(h.Regions, *r)
+		}
+	}
+	return h
+}
+
 func safeData(s *stor.Stor, off uint64) (d []byte) {
 	defer func() {
 		if e := recover(); e != nil {
@@ -402,6 +458,52 @@ func TestC18(t *testing.T) {
 		if nt && rec.WantSample("concurrent") {
 			rec.Sample("concurrent", map[string]any{"script": allocCanon(chunk, scripts), "chunks_used": st.crossings,
 				"retry_exhausted": st.retryPanics, "offsets_skipped_inside_chunk": st.midGaps, "extend_while_others_in_alloc": contended})
+		}
+	})
+
+	// dense: tiny chunks, sizes up to the chunk size, 6-12 goroutines allocating
+	// back to back so that chunk crossings and concurrent extends dominate.
+	rt.Check(t, rec, "dense", 250, 500, func(t *rapid.T) {
+		chunk := gen.Pick(t, "chunk", []int{32, 64, 64, 128})
+		ng := 6 + gen.Uniform(t, "ng", 7)
+		rounds := gen.Pick(t, "rounds", []int{500, 1500, 3000})
+		sizes := make([][]int, ng)
+		stride := make([]int, ng)
+		for g := range sizes {
+			n := 5 + gen.Uniform(t, "plen", 28)
+			for k := 0; k < n; k++ {
+				if gen.Chance(t, "uniform", 70) {
+					sizes[g] = append(sizes[g], 1+gen.Uniform(t, "sz", chunk))
+				} else {
+					sizes[g] = append(sizes[g], genSize(t, chunk))
+				}
+			}
+			stride[g] = 1 + gen.Uniform(t, "stride", 7)
+		}
+		s := stor.HeapStor(chunk)
+		h := runDense(s, chunk, sizes, stride, rounds)
+		msg, st := checkAllocHistory(h)
+		if msg != "" {
+			h.Note = msg
+			p := writeJSON("c18_history.json", h)
+			t.Fatalf("dense: %s\nchunk %d, %d goroutines x %d allocations\nhistory written to %s", msg, chunk, ng, rounds, p)
+		}
+		var canon strings.Builder
+		fmt.Fprintf(&canon, "dense chunk %d x%d:", chunk, rounds)
+		for g := range sizes {
+			fmt.Fprintf(&canon, " %v/%d", sizes[g], stride[g])
+		}
+		nt := st.crossings >= 100 && (st.midGaps > 0 || st.retryPanics > 0)
+		rec.Case(nt, canon.String())
+		rec.LabelIf(nt, "dense_nontrivial")
+		rec.LabelN("dense_allocs_ok", st.ok)
+		rec.LabelN("dense_allocs_retry_exhausted_panic", st.retryPanics)
+		rec.LabelN("dense_offsets_skipped_inside_chunk", st.midGaps)
+		rec.LabelN("dense_chunks_used", st.crossings)
+		rec.Label(fmt.Sprintf("dense_chunk_%d", chunk))
+		if nt && rec.WantSample("dense") {
+			rec.Sample("dense", map[string]any{"chunk": chunk, "goroutines": ng, "allocations_each": rounds, "chunks_used": st.crossings,
+				"retry_exhausted": st.retryPanics, "offsets_skipped_inside_chunk": st.midGaps})
 		}
 	})
 
